@@ -241,3 +241,65 @@ Section Oracles.
         cbn [map]. rewrite last_cons. cbn [step_hw]. exact IH2.
   Qed.
 End Oracles.
+
+(* ---- io.EOF means a clean end: for ALL inputs ------------------------------------------- *)
+Lemma read_uv_f_not_eof : forall f i x s, i <> 0 -> read_uv_f f i x s <> VEof.
+Proof.
+  induction f as [|f IH]; intros i x s Hi; cbn [read_uv_f]; [discriminate|].
+  destruct s as [|b rest].
+  - replace (i =? 0) with false by lia. discriminate.
+  - destruct (((i =? 8) && (128 <=? b2n b)) || (9 <=? i)); [discriminate|].
+    destruct (b2n b <? 128).
+    + destruct ((b2n b =? 0) && (0 <? i)); discriminate.
+    + apply IH. lia.
+Qed.
+
+Lemma read_uv_eof_nil s : read_uv s = VEof -> s = [].
+Proof.
+  destruct s as [|b rest]; [reflexivity|]. unfold read_uv.
+  change 10%nat with (S 9). generalize 9%nat. intros f. cbn [read_uv_f].
+  intros H. exfalso. revert H.
+  destruct (((0 =? 8) && (128 <=? b2n b)) || (9 <=? 0)); [discriminate|].
+  destruct (b2n b <? 128).
+  - destruct ((b2n b =? 0) && (0 <? 0)); discriminate.
+  - apply read_uv_f_not_eof. lia.
+Qed.
+
+(* what "clean end" means for the stream a call sees *)
+Definition clean_end (o : ropts) (s : bytes) : Prop :=
+  s = [] \/ (o_zeof o = true /\ exists rest n, read_uv s = VOk 0 rest n).
+
+Lemma ld_read_size_eof o s r : ld_read_size (o_zeof o) (o_maxs o) s = Err EEof -> r = tt -> clean_end o s.
+Proof.
+  intros H _. unfold ld_read_size in H. destruct (read_uv s) as [l rest n| | | |] eqn:E; try discriminate.
+  - destruct ((l =? 0) && o_zeof o) eqn:Ez.
+    + apply andb_true_iff in Ez. destruct Ez as (Hl & Hz). right. split; [exact Hz|].
+      exists rest, n. rewrite E. f_equal. lia.
+    + destruct (o_maxs o <? l); discriminate.
+  - left. apply read_uv_eof_nil. exact E.
+Qed.
+
+Theorem brp_skip_eof_clean o st : brp_skip o st = Err EEof -> clean_end o (vis st).
+Proof.
+  unfold brp_skip. intros H.
+  destruct (ld_read_size (o_zeof o) (o_maxs o) (vis st)) as [[[l rest] n]|e] eqn:E.
+  - exfalso. destruct (l =? 0); [discriminate|].
+    destruct (cid_from_reader (take l rest)) as [cn c p after| |k]; try discriminate.
+    destruct (p_lim st); [|destruct (p_seek st)].
+    + destruct (blen (vis (adv (n + cn) st)) <? l - cn); discriminate.
+    + destruct (negb (p_pos (adv (n + cn) st) + (l - cn) =? p_off st + uv_size l + l)); [discriminate|].
+      destruct (match p_rsize st with Some r => r | None => blen (p_all st) end <? p_pos (adv (n + cn) st) + (l - cn)); discriminate.
+    + destruct (blen (vis (adv (n + cn) st)) <? l - cn); discriminate.
+  - inversion H; subst. eapply ld_read_size_eof; [exact E|reflexivity].
+Qed.
+
+Theorem brp_next_eof_clean hok o st : brp_next hok o st = Err EEof -> clean_end o (vis st).
+Proof.
+  unfold brp_next, next_block, read_node, ld_read. intros H.
+  destruct (ld_read_size (o_zeof o) (o_maxs o) (vis st)) as [[[l rest] n]|e] eqn:E.
+  - exfalso. destruct (blen rest <? l); [discriminate|].
+    destruct (cid_from_bytes (take l rest)) as [[cn p]|]; [|discriminate].
+    destruct (o_trusted o); [discriminate|].
+    unfold verify in H. destruct (hash_matches hok (take cn (take l rest)) p (drop cn (take l rest))) as [[|]|]; discriminate.
+  - inversion H; subst. eapply ld_read_size_eof; [exact E|reflexivity].
+Qed.
